@@ -714,6 +714,55 @@ public:
             }
             out.probes["handler_entries"] += entries;
         }
+        // ---------------- D: the same requests, but the machine runs in long slices between them (A single-steps, and a per-call
+        // refresh of anything cached inside Run would hide there): only the end state can be judged, by the arithmetic oracle
+        if (out.ok()) {
+            std::vector<u64> inj;
+            for (auto& s : plan.steps)
+                if (s.op == "inj")
+                    inj.push_back(nB ? ((u64)s.arg(0) * nB / 1000) % (nB + 1) : 0);
+            std::sort(inj.begin(), inj.end());
+            if (!inj.empty()) {
+                Machine D;
+                setup(plan, tree, D, false);
+                u64 at = 0;
+                dead.clear();
+                for (u64 c : inj) {
+                    if (c > at && dead.empty()) {
+                        dead = D.b.run(c - at);
+                        out.sim_cycles += c - at;
+                        at = c;
+                    }
+                    if (!dead.empty())
+                        break;
+                    D.b.t->MMIOWrite(0x204, 1 << 5);
+                    if (D.b.regs().lp || D.b.regs().rep)
+                        out.probes["sliced_inject_inside_loop"]++;
+                }
+                u64 rest = (nB > at ? nB - at : 0) + inj.size() * 400 + 64;
+                if (dead.empty()) {
+                    dead = D.b.run(rest);
+                    out.sim_cycles += rest;
+                }
+                auto& rd = D.b.regs();
+                u64 per = (hv == 1 || hv == 2) ? (u64)plan.knob("hcount", 0) + 1 : 1;
+                u16 hc = D.b.peek_data(HCNT);
+                if (!dead.empty())
+                    out.violate("C09.irq-in-loop", "interrupted program run in long slices aborted at " + dead);
+                else if (rd.pc != D.end_addr)
+                    out.notes.push_back("long-slice run did not reach its end (harness bound)");
+                else if ((s64)rd.a[0] != ex.a0 || (s64)rd.a[1] != ex.a1 || rd.lp || rd.bcn || rd.rep)
+                    out.violate("C09.irq-in-loop", fmt("interrupted run in long slices ends with a0=%lld a1=%lld lp=%d bcn=%d rep=%d; count+1 executions "
+                                                       "give a0=%lld a1=%lld (handler variant %d, %zu requests at cycles %llu..)", (long long)rd.a[0],
+                                                       (long long)rd.a[1], rd.lp, rd.bcn, (int)rd.rep, (long long)ex.a0, (long long)ex.a1, hv, inj.size(),
+                                                       (unsigned long long)inj[0]));
+                else if (hc == 0 || hc % per != 0 || hc / per > inj.size())
+                    out.violate("C09.count", fmt("long-slice run: the handler's own block repeat (count %lld) advanced its counter to %u for %zu requests",
+                                                 (long long)plan.knob("hcount", 0), hc, inj.size()));
+                else
+                    out.probes["sliced_interrupted_run_judged"]++;
+            }
+        }
         out.nontrivial = has_loop && (fault_in_loop);
         out.sig = tree_sig(tree);
         out.state_sigs.insert(out.sig ^ (u64)hv);
